@@ -145,6 +145,14 @@ LONG_RUN_CHARS = ["\x00", " ", ".", ",", "-", "/", ":", "a", "Z", "0",
 
 def gen_text(rng):
     r = rng.random()
+    if 0.955 < r <= 0.985:
+        # a time followed by a sign, one or two digits, a colon and
+        # something that is not a minute field; or by very long fractions
+        tail = rng.choice([" -03: see below", " +3:pm", " -03:x9", " +11:",
+                           " - see you", " +x", " -0300:", " +05:3x",
+                           ".123456789012345678901234567890",
+                           " 10:30.1234567890123456789012345678"])
+        return valid_rendering(rng) + tail
     if r > 0.985:
         # a very long run of one character (NUL, blank, separator, letter,
         # digit), alone or around a well-formed rendering: the tokenizer must
@@ -265,8 +273,11 @@ def gen_world_op(rng):
     if r < 0.92:
         # the thread's decimal context (numbers in the text are read through
         # Decimal): not one of the things the outcome may depend on
-        return ["decimal", rng.choice([28, 9, 6, 3]),
-                rng.choice(["ROUND_HALF_EVEN", "ROUND_DOWN", "ROUND_UP"])]
+        return ["decimal", rng.choice([28, 28, 9, 6, 3]),
+                rng.choice(["ROUND_HALF_EVEN", "ROUND_HALF_EVEN",
+                            "ROUND_DOWN", "ROUND_UP"]),
+                rng.choice([None, None, "Rounded", "Inexact",
+                            "Subnormal"])]
     return ["new_parser", rng.choice([0, 1]), rng.random() < 0.5,
             rng.random() < 0.5]
 
@@ -624,6 +635,12 @@ class Env(object):
             c = decimal.getcontext()
             c.prec = op[1]
             c.rounding = getattr(decimal, op[2])
+            for sig in (decimal.Rounded, decimal.Inexact, decimal.Subnormal):
+                c.traps[sig] = False
+            if len(op) > 3 and op[3]:
+                # signals the caller has chosen to trap in its own
+                # arithmetic
+                c.traps[getattr(decimal, op[3])] = True
             ctx.probe("decimal_context_changed")
         elif op[0] == "new_parser":
             P = self.parser_mod
